@@ -11,7 +11,11 @@ import qmodel
 import enginecheck as ec
 
 THEOREM = 'C19: reference semantics of C01-C05 (Props/C01..C05.v) instantiated with flavour Js; rbql-js tied to it by correspondence'
+JSKEY_THEOREM = 'C19_js_key_faithful / C19_js_key_nan_refuted / C19_utf16_order_agree / C19_utf16_order_refuted (Props/C19.v): JsKey.v = JSON.stringify as rbql-js uses it for keys, Utf16.v = order of JavaScript strings'
 CELLS = ['a', 'b', 'ab', 'ba', 'c', 'x1', 'A', 'a b', 'a!', 'b%', '_', 'US$$', 'x$&y', "$'", '$`z']      # incl. the $-sequences String.replace interprets
+# cells for ORDER BY beyond ASCII: every code point is below U+D800 or astral (see gen_case)
+UCELLS = ['a', 'b', 'z', '\u00e9', '\u00e4', '\u03a9', '\u4e2d', '\ud7ff', '\U0001f600', '\U00010000', '\U0010ffff', 'a\U0001f600', 'a\u00e9', '\U0001f600a', '\u4e2d\U00010000', '\U0001f600\U0001f601', '']
+assert all(ord(ch) < 0xd800 or ord(ch) >= 0x10000 for cell in UCELLS for ch in cell)
 NUM = ['1', '2', '3', '10', '7', '12', '2.5', '0.25', '0', '-4', '-1.5', '0']
 
 
@@ -138,6 +142,19 @@ def gen_case(ctx, g, focus=None):
         qa['kind'] = ('select', g.items(cx, max_items=2))
         kind = r.choice(['str', 'int'])
         keys = [g.str_expr(cx, 1) if kind == 'str' else g.int_expr(cx, 1) for _ in range(r.choice([1, 1, 2]))]
+        if kind == 'str' and r.random() < 0.12:
+            # ORDER BY over strings beyond ASCII: JavaScript sorts by UTF-16 code units (stable_compare: a[i] < b[i]), the reference by
+            # code points.  The cells mix low-BMP non-ASCII characters (below U+D800) with astral ones, and NEVER a code point of
+            # U+E000..U+FFFF together with an astral one: on such strings the two orders are the same order - C19_utf16_order_agree
+            # (Props/C19.v) is the justification for comparing rbql-js with the code point model here; C19_utf16_order_refuted is why the
+            # excluded range would be a false alarm, not a finding.  .length, like and the regex dot count code units in JS, so these
+            # queries use bare fields and concatenations only (no WHERE, no computed items).
+            A = [[r.choice(UCELLS) for _ in row] for row in A]
+            qa['where'] = None
+            qa['kind'] = ('select', r.choice([[('star',)], [('expr', ('fld', 'a', 0))], [('expr', ('fld', 'a', na - 1)), ('stara',)]]))
+            keys = [r.choice([('fld', 'a', r.randint(0, na - 1)), ('add', ('fld', 'a', r.randint(0, na - 1)), ('fld', 'a', r.randint(0, na - 1))),
+                              ('add', ('fld', 'a', 0), ('lit', r.choice(UCELLS)))]) for _ in range(r.choice([1, 1, 2]))]
+            tags.append('unicode')
         qa['order'] = (keys, r.random() < 0.5)
         qa['distinct'] = r.choice([0, 0, 1, 2])
         qa['top'] = r.choice([None, None, 0, 1, 3])
@@ -330,6 +347,8 @@ def run(ctx):
             continue
         ctx.stat('kind_' + c['qa']['kind'][0] + ('_agg' if any(i[0] == 'agg' for i in (c['qa']['kind'][1] if c['qa']['kind'][0] == 'select' else [])) else ''))
         ctx.stat('error_' + e['error'][0] if e['error'] else 'ok')
+        if 'unicode' in c.get('tags', ()):
+            ctx.stat('order_by_non_ascii_cells')
         if e['error'] or any(x[0] == 'W' for x in e['events']):
             ctx.nontriv((c['qjs'], json.dumps(c['A']), json.dumps(c['B'])))
     for c, e, g_ in list(zip(cases, exp, got))[:3]:
@@ -350,9 +369,14 @@ def run(ctx):
                 'rendered into JS syntax over rectangular string tables: select/where (star forms, EXCEPT, UNNEST), order by + distinct/distinct count + top/limit, aggregates with GROUP BY, joins (5 spellings), update; '
                 'compared with the reference model (flavour Js): result table by value (numbers numerically), error class and record number, input/join arrays deep-equal and identical afterwards, no aliasing; '
                 'non-trivial = distinct case with output rows or an error')
+    # the identity of records and keys (JSON text) and the order of strings (UTF-16 code units) as JavaScript has them: JsKey.v, Utf16.v
+    importlib.import_module('props.jskey').run(ctx, JSKEY_THEOREM)
 
 
 def replay(ctx, case):
+    if case.get('part') == 'jskey':
+        import importlib
+        return importlib.import_module('props.jskey').replay(ctx, {k: v for k, v in case.items() if k != 'part'}, JSKEY_THEOREM)
     if case.get('part') == 'header':
         import importlib
         c07 = importlib.import_module('props.c07')
